@@ -204,6 +204,13 @@ def run_c06(ctx: common.Ctx):
             if d:
                 ctx.monitor_failure(classify_c06(d, out), f'after {hist[-1]} the re-parsed document differs from the model at {d}', w)
                 break
+            # block comments: attribution may differ after re-parse (C06 excludes it), their texts and order may not
+            cf = [t.raw_text for t in f.token_store if type(t).__name__ == 'BlockComment']
+            cg = [t.raw_text for t in g.token_store if type(t).__name__ == 'BlockComment']
+            if '\n'.join(x.strip('\r\n') for x in cf).split('\n') != '\n'.join(x.strip('\r\n') for x in cg).split('\n'):
+                ctx.monitor_failure('C06:comment-text-differs', f'after {hist[-1]} the block comment lines of the model {cf!r} are not '
+                                    f'those of the re-parsed text {cg!r}', w)
+                break
             d = diff(value_views(f), value_views(g))
             if d:
                 sig = 'C06:value-view-differs-from-text'
